@@ -204,6 +204,11 @@ func (v *FnV) callWithArgs(st *State, call *ast.CallExpr, preArgs []Value) []Val
 	}
 	sig := fn.Type().(*types.Signature)
 	full := funcFullName(fn)
+	if m, ok := stdModels[full]; ok && m.norecv {
+		// receiver-independent model (locks, wait groups): the receiver is not evaluated
+		args := v.evalArgs(st, call, sig, preArgs)
+		return m.f(v, st, call, nil, args)
+	}
 	// receiver
 	var recv *Value
 	if recvExpr != nil {
@@ -534,6 +539,14 @@ func (v *FnV) contractCall(st *State, call *ast.CallExpr, fc *FuncContract, fn *
 	}
 	for i, t := range rts {
 		r := st.freshVal(fn.Name()+"_r", t)
+		if fns := fc.Extra["fn"]; len(fns) > 0 && len(rts) == 1 {
+			// the function is treated as a mathematical function of its arguments
+			if sf := v.e.lookupSpec(pkg, fns[0]); sf != nil && sf.Body == nil && len(sf.Params) == len(args) {
+				fv := v.applySpecFn(st, sf, args, &Scope{v: v, vars: vars, pkg: pkg, callee: true})
+				st.assume(sEq(r.S, fv.S))
+				v.c.trusted[shortName(fc.FullName())+" is treated as a mathematical function of its arguments ("+fns[0]+")"] = true
+			}
+		}
 		results = append(results, r)
 		rv := sig.Results().At(i)
 		if rv.Name() != "" && rv.Name() != "_" {
